@@ -305,7 +305,7 @@ func c20Run(tier string, idx int, r *Result) {
 		return
 	}
 	bound := 1
-	if tier == "thorough" && passes == 1 {
+	if tier == "thorough" && passes == 1 && !strings.HasPrefix(in.name, "example:") {
 		bound = 2 // (two deviations over two or three passes do not fit the tier's budget)
 	}
 	if strings.HasPrefix(in.name, "small:") && passes == 1 && (tier == "quick" || strings.HasPrefix(in.name, "small:constant")) {
